@@ -162,6 +162,29 @@ pub fn input_bytes(input: &[(u8, u32)]) -> Vec<u8> {
     input.iter().flat_map(|&(l, c)| code_bytes(l, c)).collect()
 }
 
+/// Split a byte string into mapped codes: at every position the shortest mapped code (the code sets
+/// used are prefix-free, so this is the only split). None if some position starts no mapped code.
+pub fn segment(defs: &[Def], bytes: &[u8]) -> Option<Vec<(u8, u32)>> {
+    let mut out = vec![];
+    let mut i = 0;
+    'next: while i < bytes.len() {
+        let mut code = 0u32;
+        for l in 1..=4usize {
+            if i + l > bytes.len() {
+                break;
+            }
+            code = (code << 8) | bytes[i + l - 1] as u32;
+            if winner(defs, l as u8, code).is_some() {
+                out.push((l as u8, code));
+                i += l;
+                continue 'next;
+            }
+        }
+        return None;
+    }
+    Some(out)
+}
+
 /// All mapped codes, sorted by (length, value), distinct.
 pub fn mapped_codes(defs: &[Def]) -> Vec<(u8, u32)> {
     let mut v = vec![];
@@ -322,6 +345,113 @@ pub fn transpose(d: &Def, len: u8, base: u32) -> Def {
 }
 
 // ---------------------------------------------------------------------------------------------
+// overlap menus: every interval of a small code window in forms whose VALUES agree between intervals
+
+/// How an overlap-menu entry spells the mapping of the interval [a, b] of window positions.
+#[derive(Clone, Copy, Debug, PartialEq, Eq)]
+pub enum Form {
+    /// position p maps to the one unit id0 + p: bfchar when a == b, else an incrementing bfrange.
+    /// Every Id entry of a menu gives a code the same value, whatever interval it is written for.
+    Id,
+    /// the one-code intervals of `Id` written as a bfrange with lo == hi
+    IdRange1,
+    /// position p maps to the one unit sh0 + p (a second family of mutually consistent entries)
+    Sh,
+    /// the values of `Id` written as an array of one-unit elements (one element when a == b)
+    IdArr,
+    /// the fixed two-unit target 0066 0069 (+ offset in the range): bfchar when a == b
+    Lig,
+    /// array whose element for position p is MIXP[p]: one, two (also a surrogate pair) and three units
+    Mix,
+}
+
+/// per-position array elements of `Form::Mix`
+pub const MIXP: [&[u16]; 5] = [&[0x0061], &[0x0066, 0x006C], &[0xD83D, 0xDE42], &[0x0062], &[0x0066, 0x0066, 0x0069]];
+
+/// Every interval [a, b], 0 <= a <= b < n (n <= 5), of the code window base..base+n-1 in every form.
+pub fn overlap_menu(len: u8, base: u32, n: u32, forms: &[Form], id0: u16, sh0: u16) -> Vec<Def> {
+    assert!(n as usize <= MIXP.len());
+    let mut m = vec![];
+    for a in 0..n {
+        for b in a..n {
+            let (lo, hi) = (base + a, base + b);
+            let unit = |t: Units| if a == b { Def::Char { len, code: lo, t } } else { Def::Range { len, lo, hi, t } };
+            for f in forms {
+                match f {
+                    Form::Id => m.push(unit(vec![id0 + a as u16])),
+                    Form::IdRange1 if a == b => m.push(Def::Range { len, lo, hi, t: vec![id0 + a as u16] }),
+                    Form::IdRange1 => {}
+                    Form::Sh => m.push(unit(vec![sh0 + a as u16])),
+                    Form::IdArr => m.push(Def::Array { len, lo, hi, ts: (a..=b).map(|p| vec![id0 + p as u16]).collect() }),
+                    Form::Lig => m.push(unit(T_LIG.to_vec())),
+                    Form::Mix => m.push(Def::Array { len, lo, hi, ts: (a..=b).map(|p| MIXP[p as usize].to_vec()).collect() }),
+                }
+            }
+        }
+    }
+    debug_assert!(m.iter().all(|d| d.well_formed()));
+    m
+}
+
+// ---------------------------------------------------------------------------------------------
+// array targets
+
+/// Array element of `k` units (1..=3) with leading unit `lead`: lead, 0301, 0302.
+pub fn element(lead: u16, k: usize) -> Units {
+    [lead, 0x0301, 0x0302][..k].to_vec()
+}
+
+/// Arrays of 2..=4 elements in every profile of element lengths {1, 2, 3}, with leading units that
+/// ascend by one / stay equal / descend by one from `lead0` (wrapping at 16 bits).
+pub fn profile_arrays(lead0: u16) -> Vec<Vec<Units>> {
+    let mut out = vec![];
+    for n in 2..=4usize {
+        for prof in 0..3usize.pow(n as u32) {
+            for step in [1i32, 0, -1] {
+                let mut p = prof;
+                let mut ts = vec![];
+                for i in 0..n {
+                    let lead = (lead0 as i32 + step * i as i32 + if step < 0 { n as i32 - 1 } else { 0 }) as u16;
+                    ts.push(element(lead, p % 3 + 1));
+                    p /= 3;
+                }
+                out.push(ts);
+            }
+        }
+    }
+    out
+}
+
+/// All arrays of exactly `n` elements over `alphabet`, addressed by index.
+pub fn array_at(alphabet: &[Units], n: usize, mut idx: u64) -> Vec<Units> {
+    let k = alphabet.len() as u64;
+    let mut ts = vec![vec![]; n];
+    for p in (0..n).rev() {
+        ts[p] = alphabet[(idx % k) as usize].clone();
+        idx /= k;
+    }
+    ts
+}
+
+/// Elements with leading unit 0041..0044 and 1, 2 or 3 units: arrays over it have every length
+/// profile with ascending, equal, descending and mixed leading units.
+pub fn alphabet_lead() -> Vec<Units> {
+    let mut a = vec![];
+    for lead in 0x0041..=0x0044u16 {
+        for k in 1..=3 {
+            a.push(element(lead, k));
+        }
+    }
+    a
+}
+
+/// Elements that share their leading unit and differ in the last one (an array that looks like an
+/// incrementing multi-unit range), plus one- and three-unit neighbours.
+pub fn alphabet_last() -> Vec<Units> {
+    vec![vec![0x0066, 0x0069], vec![0x0066, 0x006A], vec![0x0066, 0x006B], vec![0x0066], vec![0x0067], vec![0x0066, 0x0069, 0x006A]]
+}
+
+// ---------------------------------------------------------------------------------------------
 // choice recorder (DESIGN §2.2)
 
 #[derive(Clone, Debug, PartialEq, Eq)]
@@ -397,7 +527,63 @@ struct Style {
     oneline: bool,
 }
 
-fn codespace_lines(defs: &[Def], lower: bool) -> Vec<String> {
+/// Rendering options that are not derived from the definitions (degenerate CMaps, DESIGN §4 C15):
+/// an explicit code space, one codespace section per range, and empty mapping sections.
+#[derive(Clone, Debug, Default, PartialEq, Eq)]
+pub struct Extra {
+    /// explicit code space ranges (len, lo, hi); empty = derived from the definitions
+    pub codespace: Vec<(u8, u32, u32)>,
+    /// one `1 begincodespacerange` section per range instead of one section holding all ranges
+    pub codespace_split: bool,
+    /// `0 beginbfchar endbfchar` / `0 beginbfrange endbfrange` sections: (index of the definition in
+    /// front of which the section stands, defs.len() = after the last one; true = bfrange). Liberal:
+    /// PostScript allows a section of zero entries, lopdf's grammar may not.
+    pub empty_sections: Vec<(usize, bool)>,
+}
+
+impl Extra {
+    pub fn is_default(&self) -> bool {
+        *self == Extra::default()
+    }
+    pub fn to_json(&self) -> Value {
+        json!({
+            "codespace": self.codespace.iter().map(|&(l, lo, hi)| json!([hex_code(l, lo, false), hex_code(l, hi, false)])).collect::<Vec<_>>(),
+            "codespace_split": self.codespace_split,
+            "empty_sections": self.empty_sections.iter().map(|&(p, r)| json!([p, if r { "bfrange" } else { "bfchar" }])).collect::<Vec<_>>(),
+        })
+    }
+    pub fn from_json(v: &Value) -> Result<Extra, String> {
+        if v.is_null() {
+            return Ok(Extra::default());
+        }
+        let mut e = Extra { codespace_split: v["codespace_split"].as_bool().unwrap_or(false), ..Extra::default() };
+        for r in v["codespace"].as_array().ok_or("extra.codespace")? {
+            let (lo, hi) = (r[0].as_str().ok_or("codespace lo")?, r[1].as_str().ok_or("codespace hi")?);
+            if lo.len() != hi.len() || lo.len() % 2 != 0 || lo.is_empty() || lo.len() > 8 {
+                return Err(format!("bad codespace range {} {}", lo, hi));
+            }
+            let p = |s: &str| u32::from_str_radix(s, 16).map_err(|e| e.to_string());
+            e.codespace.push(((lo.len() / 2) as u8, p(lo)?, p(hi)?));
+        }
+        for s in v["empty_sections"].as_array().ok_or("extra.empty_sections")? {
+            let kind = match s[1].as_str() {
+                Some("bfrange") => true,
+                Some("bfchar") => false,
+                _ => return Err("empty section kind".into()),
+            };
+            e.empty_sections.push((s[0].as_u64().ok_or("empty section position")? as usize, kind));
+        }
+        Ok(e)
+    }
+}
+
+fn codespace_lines(defs: &[Def], extra: &Extra, lower: bool) -> Vec<String> {
+    if !extra.codespace.is_empty() {
+        return extra.codespace.iter().map(|&(l, lo, hi)| format!("<{}> <{}>", hex_code(l, lo, lower), hex_code(l, hi, lower))).collect();
+    }
+    if defs.is_empty() {
+        return vec![format!("<{}> <{}>", hex_code(2, 0, lower), hex_code(2, 0xFFFF, lower))];
+    }
     let mut lens: Vec<u8> = defs.iter().map(|d| d.len()).collect();
     lens.sort();
     lens.dedup();
@@ -456,6 +642,11 @@ fn mapping_line(d: &Def, s: &Style) -> String {
 /// `choose` call; with an all-zero chooser the ISO 32000-1 9.10.3 template comes out, one section per
 /// definition in order. Section order is never changed (it is semantic).
 pub fn render(defs: &[Def], ch: &mut Chooser) -> Vec<u8> {
+    render_ex(defs, &Extra::default(), ch)
+}
+
+/// `render` with the options of `extra` (which never add or remove choice sites of a given case).
+pub fn render_ex(defs: &[Def], extra: &Extra, ch: &mut Chooser) -> Vec<u8> {
     let multi_unit = defs.iter().any(|d| match d {
         Def::Char { t, .. } | Def::Range { t, .. } => t.len() > 1,
         Def::Array { ts, .. } => ts.iter().any(|t| t.len() > 1),
@@ -481,12 +672,14 @@ pub fn render(defs: &[Def], ch: &mut Chooser) -> Vec<u8> {
 
     // sections: runs of consecutive same-kind definitions may be merged (one choice per boundary)
     let mut sections: Vec<Vec<&Def>> = vec![];
+    let mut section_start: Vec<usize> = vec![];
     for (i, d) in defs.iter().enumerate() {
-        let mergeable = i > 0 && defs[i - 1].in_range_section() == d.in_range_section();
+        let mergeable = i > 0 && defs[i - 1].in_range_section() == d.in_range_section() && !extra.empty_sections.iter().any(|&(p, _)| p == i);
         if mergeable && ch.choose("merge", 2, false) == 1 {
             sections.last_mut().unwrap().push(d);
         } else {
             sections.push(vec![d]);
+            section_start.push(i);
         }
     }
 
@@ -562,15 +755,32 @@ pub fn render(defs: &[Def], ch: &mut Chooser) -> Vec<u8> {
             }
         }
     }
-    let cs = codespace_lines(defs, s.lower);
-    line(&mut out, &format!("{} begincodespacerange", cs.len()));
-    for l in &cs {
-        line(&mut out, l);
+    let cs = codespace_lines(defs, extra, s.lower);
+    if extra.codespace_split {
+        for l in &cs {
+            line(&mut out, "1 begincodespacerange");
+            line(&mut out, l);
+            line(&mut out, "endcodespacerange");
+        }
+    } else {
+        line(&mut out, &format!("{} begincodespacerange", cs.len()));
+        for l in &cs {
+            line(&mut out, l);
+        }
+        line(&mut out, "endcodespacerange");
     }
-    line(&mut out, "endcodespacerange");
 
     let word_sep = if s.sep.is_empty() { " " } else { s.sep };
-    for sec in &sections {
+    let empty_section = |out: &mut String, is_range: bool| {
+        let kind = if is_range { "bfrange" } else { "bfchar" };
+        out.push_str(&format!("0{}begin{}{}{}end{}{}", word_sep, kind, s.trail, if s.oneline { " " } else { s.eol }, kind, s.eol));
+    };
+    for (si, sec) in sections.iter().enumerate() {
+        for &(p, r) in &extra.empty_sections {
+            if p == section_start[si] {
+                empty_section(&mut out, r);
+            }
+        }
         match s.gap {
             1 => line(&mut out, ""),
             2 => line(&mut out, "% next section"),
@@ -590,6 +800,11 @@ pub fn render(defs: &[Def], ch: &mut Chooser) -> Vec<u8> {
         }
         out.push_str(&format!("end{}", kind));
         out.push_str(s.eol);
+    }
+    for &(p, r) in &extra.empty_sections {
+        if p >= defs.len() {
+            empty_section(&mut out, r);
+        }
     }
     line(&mut out, "endcmap");
     line(&mut out, "CMapName currentdict /CMap defineresource pop");
